@@ -347,7 +347,15 @@ SubImage == /\ c.kind = "full"
 \* sub-tilings) before - so the invariants below constrain every history full -> sub -> full -> sub ...
 BackToImage == /\ c.kind = "sub"
                /\ c' = [kind |-> "full", t |-> c.parent, parent |-> c.parent, off |-> <<0, 0>>]
-SpecImage == InitImage /\ [][NewImage \/ SubImage \/ BackToImage]_c
+\* Before it is used a tiling object may be transported: pickled and unpickled, copy.copy'd, copy.deepcopy'd, sent to
+\* a worker process through a queue, inherited across a fork.  A transport yields a tiling of the SAME geometry - in
+\* this state machine it is the step that leaves c unchanged - so every invariant holds for the transported object,
+\* of whatever kind (top-level, sub-image).  RebuiltFromSize is the refuted variant "a tiling is determined by its
+\* image size": true for top-level tilings, false for sub-image tilings (TransportByRebuildOK below).
+Transport == Built /\ c' = c
+RebuiltFromSize(t) == Tiling(t.x.len, t.y.len)
+TransportByRebuildOK(t) == RebuiltFromSize(t) = t
+SpecImage == InitImage /\ [][NewImage \/ SubImage \/ BackToImage \/ Transport]_c
 ImgMinimal == c.kind = "full" => P2Minimal(c.t.x.len, c.t.y.len)
 ImgCentred == c.kind = "full" => /\ Centred(c.t.p2, c.t.x.len) /\ Centred(c.t.p2, c.t.y.len)
                                  /\ c.t.x.g0 = Centre(c.t.p2, c.t.x.len) /\ c.t.y.g0 = Centre(c.t.p2, c.t.y.len)
